@@ -18,8 +18,10 @@ class RawTok(Model):
     """raw ndarray / number behind an Array"""
     kinds = ("ndarray",)
 
-    def __init__(self, origin, shape=(3,)):
+    def __init__(self, origin, shape=(3,), dtype=None):
         self.origin, self.shape = origin, tuple(shape)
+        if dtype is not None:
+            self.dtype = dtype
 
     def __eq__(self, o):
         return isinstance(o, RawTok) and o.origin == self.origin
@@ -31,7 +33,10 @@ class RawTok(Model):
         return RawTok(("idx", self.origin, key_of(idx)), idx_shape(self.shape, idx))
 
     def copy(self):
-        return RawTok(("copy", self.origin), self.shape)
+        return RawTok(("copy", self.origin), self.shape, getattr(self, "dtype", None))
+
+    def astype(self, dtype, *a, **k):
+        return RawTok(("astype", self.origin, repr(dtype)), self.shape, dtype)
 
     def _bin(self, op, o):
         oo = getattr(o, "origin", o)
@@ -112,9 +117,20 @@ class ArrTok(Model):
     def values(self):
         return RawTok(self.origin, self.shape)
 
+    @values.setter
+    def values(self, v):
+        # in-place rebinding of the buffer: seen through every reference to this Array object
+        self.origin = tok_origin(v)
+        self.shape = tuple(getattr(v, "shape", self.shape))
+
     @property
     def _array(self):
         return RawTok(self.origin, self.shape)
+
+    @_array.setter
+    def _array(self, v):
+        self.origin = tok_origin(v)
+        self.shape = tuple(getattr(v, "shape", self.shape))
 
     @property
     def norm(self):
